@@ -4,11 +4,14 @@
 set -u
 DIFF=$(readlink -f "$1"); shift
 WT=$(mktemp -d /tmp/mutwt-XXXXXX); OUT=$(mktemp -d /tmp/mutout-XXXXXX)
-git -C /repo worktree add -q --detach "$WT" HEAD || exit 3
+rmdir "$WT"
+for i in 1 2 3 4 5 6; do git -C /repo worktree add -q --detach "$WT" HEAD 2>/dev/null && break; sleep $((RANDOM % 3 + 1)); done
+[ -d "$WT/src" ] || { echo "WORKTREE FAILED"; exit 3; }
 if ! git -C "$WT" apply "$DIFF"; then echo "PATCH DOES NOT APPLY"; git -C /repo worktree remove --force "$WT"; rm -rf "$OUT"; exit 3; fi
 cd /verif
 for P in "$@"; do
   VERIF_REPO="$WT" VERIF_OUT="$OUT" ./check "$P" --tier "${TIER:-quick}" > "$OUT/$P.log" 2>&1; rc=$?
+  grep -q "tier=" "$OUT/$P.log" || echo "!! $P CHECK DID NOT PRODUCE A SUMMARY LINE"
   echo "== $P exit=$rc  $(grep -c '^VIOLATION' "$OUT/$P.log") violation line(s): $(grep '^VIOLATION' "$OUT/$P.log" | sed 's/.*replay=.*replays\///' | cut -c1-90 | tr '\n' ' ')"
   [ -n "${SHOW:-}" ] && grep -v '^VIOLATION' "$OUT/$P.log" | head -${SHOW}
 done
